@@ -1,6 +1,8 @@
 """C16 — INI parser: robustness on all byte strings, documented grammar round trip
 (model PV.Model.Ini, spec PV.Spec.Ini, theorems PV.Props.C16)."""
 import itertools
+import re
+import struct
 import pv
 import diffrun
 
@@ -60,10 +62,27 @@ def fix_ends(rng, s, bad_first, forbid):
     return bytes(s)
 
 
-def gen_key(rng, chk):
+def variant(rng, k):
+    """a name that is easily confused with k: other case, a prefix, an extension"""
+    r = rng.randrange(5)
+    if r == 0:
+        return k.swapcase()
+    if r == 1:
+        return k.upper() if k != k.upper() else k.lower()
+    if r == 2 and len(k) > 1:
+        return k[:rng.randrange(1, len(k))]
+    if r == 3:
+        return k + rng.choice([b"1", b"x", b"_", b".", b"k"])
+    return rng.choice([b"x", b"_"]) + k
+
+
+def gen_key(rng, chk, pool=()):
     forbid = {0, 10, 61, 35, 59}
     r = rng.random()
-    if r < 0.75:
+    if pool and r < 0.15:
+        k = variant(rng, rng.choice(pool))
+        chk.bump("key:variant-of-another")
+    elif r < 0.75:
         k = rng.choice(WORDS)
         if rng.random() < 0.3:
             k = k + str(rng.randrange(100)).encode()
@@ -79,15 +98,34 @@ def gen_key(rng, chk):
 
 INTS = [b"0", b"1", b"-1", b"+5", b"007", b"42", b"-0", b"2147483647", b"-2147483648", b"2147483648", b"-2147483649", b"4294967297",
         b"99999999999999999999", b"-99999999999999999999", b"12abc", b"- 5", b"+-3", b"1 2", b"0x10", b"1e3", b"9223372036854775807",
-        b"9223372036854775808", b"18446744073709551617"]
+        b"9223372036854775808", b"18446744073709551617", b"010", b"000100", b"0644", b"08", b"00", b"-007", b"+0", b"2147483647x", b"0b1", b"1_000",
+        b"1,5", b"1.9", b"-1.9", b"\xb2", b"1\xb2"]
 DOUBLES = [b"3.24", b"0.15", b"123.3e10", b"123.19", b"-1.5", b"+2.", b".5", b"-.5e-3", b"1e308", b"1e309", b"1e-308", b"1e-400", b"2E5",
            b"1e+2", b"0.1", b"0.30000000000000004", b"123456789012345678901234567890", b"1e4294967297", b"1e99999", b"1.7976931348623157e308",
            b"4.9e-324", b"1e50", b"1e58", b"1e8", b"5e-1x", b"e5", b".", b"-", b"1.2.3", b"1e", b"1e-", b"0.000000000000000000000000000001",
-           b"3.141592653589793238462643383279"]
-BOOLS = [b"true", b"TRUE", b"false", b"FALSE", b"True", b"0", b"1", b"2", b"-1", b"yes", b"tRUE", b"true1"]
+           b"3.141592653589793238462643383279", b"007.50", b"00", b"-0.0", b"+.5", b"1.e5", b".e5", b"1E+05", b"1e+", b"1e007", b"1e0", b"1e49", b"1e57",
+           b"1e100", b"1e150", b"1e307", b"1e-307", b"9.999e-5", b"1,5", b"inf", b"nan", b"-inf", b"Infinity", b"0x1p3", b"1d5", b"1e5e5", b"12e-1.5", b"5.", b"5.e", b"--5", b"+-5",
+           b"4503599627370497", b"9007199254740993", b"0.1e1", b"100e-2", b"1e-0", b"299792458", b"6.02214076e23", b"1.602176634E-19"]
+BOOLS = [b"true", b"TRUE", b"false", b"FALSE", b"True", b"0", b"1", b"2", b"-1", b"yes", b"tRUE", b"true1", b"False", b"fALSE", b"false0", b"1true", b"truefalse", b"on", b"off",
+         b"no", b"01", b"+1", b"1.5", b"0.9", b"t", b"T"]
 
 
-def gen_list_value(rng):
+def gen_list_value(rng, chk=None):
+    r = rng.random()
+    if r < 0.04:
+        # one long item / many items (the item buffer of the getter has the size of the line buffer)
+        if chk:
+            chk.bump("list:long-item")
+        return b"{" + rng.choice([b"", b"a "]) + b"x" * rng.choice([254, 255, 256, 257, 511, 512, 513, 900]) + rng.choice([b"", b" b"]) + b"}"
+    if r < 0.08:
+        if chk:
+            chk.bump("list:many-items")
+        k = rng.choice([63, 64, 65, 66, 128, 200, 300])
+        return b"{" + b" ".join(b"%d" % i for i in range(k)) + b"}"
+    if r < 0.12:
+        if chk:
+            chk.bump("list:other-white-space")
+        return b"{" + rng.choice([b"a\x0bb", b"a\x0cb", b"a\rb", b"a \x0b b", b"\x0ca\x0c", b"a\x0b"]) + b"}"
     n = rng.randrange(0, 5)
     items = [rng.choice([b"1", b"2", b"5", b"10", b"val", b"2.0", b"true", b"FALSE", b"7654", b"a=b", b"x'y", b"{"]) for _ in range(n)]
     seps = [rng.choice([b" ", b"\t", b"  ", b" \t "]) for _ in range(n)]
@@ -108,7 +146,7 @@ def gen_value(rng, chk, q):
     elif r < 0.5:
         v, t = rng.choice(BOOLS), "bool"
     elif r < 0.65:
-        v, t = gen_list_value(rng), "list"
+        v, t = gen_list_value(rng, chk), "list"
     elif r < 0.9:
         v, t = rng.choice([b"Test string", b"a=b", b"x = y = z", b"it's", b'say "hi"', b"[not a section]", b"a;b", b"a#b", b"Test string with #'",
                            b"c:\\dir\\file", b"\xc3\xbcber", b"==", b"{1 2", b"1 2}", b"tab\there", b"v"]), "string"
@@ -162,7 +200,7 @@ def gen_entry(rng, chk, keys_pool, pad_to=None):
         key = rng.choice(keys_pool)
         chk.bump("entry:repeated-key")
     else:
-        key = gen_key(rng, chk)
+        key = gen_key(rng, chk, keys_pool)
         keys_pool.append(key)
     q = rng.choice("nnnsd" if rng.random() < 0.7 else "nsd")
     value = gen_value(rng, chk, q)
@@ -211,6 +249,9 @@ def gen_header(rng, chk, names):
             n = n + str(rng.randrange(1000)).encode()
         if rng.random() < 0.1:
             n = fix_ends(rng, rand_bytes(rng, rng.randrange(1, 10), {0, 10, 93}), set(), {0, 10, 93})
+        if names and rng.random() < 0.15:
+            n = fix_ends(rng, bytes(c for c in variant(rng, rng.choice(sorted(names))) if c not in (0, 10, 93)), set(), {0, 10, 93})
+            chk.bump("header:variant-of-another")
         if n not in names:
             break
     names.add(n)
@@ -219,8 +260,8 @@ def gen_header(rng, chk, names):
     return Line("hdr", [hx(lead), hx(pre), hx(n), hx(post), hx(trail)], lead + b"[" + pre + n + post + b"]" + trail)
 
 
-def gen_doc(rng, chk, size):
-    """returns the op list of one well-formed document (ending in wfcheck, gparse)"""
+def gen_doc(rng, chk, size, lookups=0):
+    """returns the op list of one well-formed document (pieces, wfcheck, gparse, then `lookups` gget ops and sometimes life)"""
     lines = []
     keys_pool = []
     for _ in range(rng.choice([0, 0, 1, 2]) if size > 1 else 0):
@@ -254,7 +295,8 @@ def gen_doc(rng, chk, size):
     # physical line limit (BOM counts on the first line)
     out = []
     for i, l in enumerate(lines):
-        total = len(l.body) + len(EOLS[l.eol]) + (len(BOMS[bom]) if bom and i == 0 else 0)
+        # the BOM counts on the first line that is actually written (an earlier one may have been dropped)
+        total = len(l.body) + len(EOLS[l.eol]) + (len(BOMS[bom]) if bom and not out else 0)
         if total > MAXLINE:
             if l.eol == "crlf" and total - 1 <= MAXLINE:
                 l.eol = "lf"
@@ -274,7 +316,86 @@ def gen_doc(rng, chk, size):
         ops.append("bom %s %s" % (bom, BOMS[bom].hex()))
     ops += [l.op() for l in out]
     chk.bump("doc:sections=%d" % min(nsec, 6))
-    return ops + ["wfcheck", "gparse"]
+    tail = ["wfcheck", "gparse"]
+    if lookups:
+        secs = []
+        for l in out:
+            if l.kind == "hdr":
+                secs.append((unhx(l.fields[2]), []))
+            elif l.kind == "ent" and secs:
+                secs[-1][1].append(unhx(l.fields[1]))
+        tail += gen_lookups(rng, chk, secs, "gget", lookups)
+        if rng.random() < 0.15:
+            sec, key = pick_names(rng, chk, secs)
+            tail.append("life %s %s" % (arg(sec), arg(key)))
+            chk.bump("op:life")
+    return ops + tail
+
+
+def unhx(h):
+    return b"" if h == "-" else bytes.fromhex(h)
+
+
+def arg(b):
+    """NULL / empty / hex argument token"""
+    return "NULL" if b is None else hx(b)
+
+
+SDEFS = [None, b"", b"dflt", b"d" * 300, b"\xff\xfe", b"0", b"a=b ; c"]
+IDEFS = [0, 0, -1, 1, -7, 42, 2147483647, -2147483648, 65536]
+DDEFS = [0x0000000000000000, 0x8000000000000000, 0x7ff8000000000000, 0x7ff0000000000000, 0xfff0000000000000, 0x3ff0000000000000, 0x4004000000000000,
+         0x0000000000000001, 0x7fefffffffffffff, 0xbff8000000000000, 0x3fd5555555555555, 0xfff8000000000001]
+
+
+def pick_names(rng, chk, secs):
+    """a (section, key) pair to look up: present, or easily confused with something present, or NULL / empty"""
+    r = rng.random()
+    full = [(n, ks) for n, ks in secs if ks]
+    if not full or r < 0.08:
+        chk.bump("lookup:unrelated")
+        return rng.choice([b"nosec", b"s", b"", b"S"]), rng.choice([b"nokey", b"k", b"", b"K"])
+    n, ks = rng.choice(full)
+    k = rng.choice(ks)
+    if r < 0.35:
+        chk.bump("lookup:present")
+        return n, k
+    if r < 0.5:
+        m, ks2 = rng.choice(full)
+        chk.bump("lookup:key-of-another-section")
+        return n, rng.choice(ks2)
+    if r < 0.65:
+        chk.bump("lookup:key-variant")
+        return n, variant(rng, k)
+    if r < 0.8:
+        chk.bump("lookup:section-variant")
+        return variant(rng, n), k
+    if r < 0.86:
+        chk.bump("lookup:null-section")
+        return None, k
+    if r < 0.92:
+        chk.bump("lookup:null-key")
+        return n, None
+    if r < 0.96:
+        chk.bump("lookup:empty-name")
+        return rng.choice([(n, b""), (b"", k)])
+    chk.bump("lookup:swapped")
+    return k, n
+
+
+def gen_lookups(rng, chk, secs, op, count):
+    out = []
+    for _ in range(count):
+        sec, key = pick_names(rng, chk, secs)
+        # a NUL inside an argument: C sees the string up to it
+        if key and rng.random() < 0.02:
+            key = key + b"\x00tail"
+            chk.bump("lookup:nul-in-argument")
+        sd, idf, bd, dd = rng.choice(SDEFS), rng.choice(IDEFS), rng.randrange(2), rng.choice(DDEFS)
+        if rng.random() < 0.2:
+            idf, dd = rng.randrange(-2**31, 2**31), rng.getrandbits(64)
+        chk.bump("default:bool-%s" % ("true" if bd else "false"))
+        out.append("%s %s %s %s %d %d %016x" % (op, arg(sec), arg(key), arg(sd), idf, bd, dd))
+    return out
 
 
 def f3_probe():
@@ -415,11 +536,42 @@ def strip_double(fields):
     return [f if not f.startswith("d=") else "d=*" for f in fields]
 
 
+def getter_view(tokens):
+    """spec view of one `s= i= b= l= d= e= [n=]` group: the double of a value that was found is judged by
+    double_ok, not by equality; of the key count only the number of distinct keys is promised"""
+    found = "e=1" in tokens
+    out = []
+    for t in tokens:
+        if t.startswith("d=") and found:
+            out.append("d=*")
+        elif t.startswith("n="):
+            out.append("n=*/" + t.split("/")[-1])
+        else:
+            out.append(t)
+    return " ".join(out)
+
+
+LIFE_MARKS = ("U", "N", "P", "Q", "M")
+
+
+def life_segments(line):
+    segs, cur = [], None
+    for t in line.split():
+        if t in LIFE_MARKS:
+            cur = [t]
+            segs.append(cur)
+        elif cur is None:
+            segs.append([t])
+        else:
+            cur.append(t)
+    return segs
+
+
 def spec_view(op, line):
     o = op.split()[0] if op else ""
     if o == "gparse":
         # the documentation promises which sections / keys / values exist, not their order, not a
-        # second listing of a repeated key, and nothing about the double conversion's bits
+        # second listing of a repeated key; the double of a found value is judged by double_ok
         status, secs, probes = parse_dump(line)
         canon = []
         for name, keys in secs:
@@ -429,11 +581,207 @@ def spec_view(op, line):
                     seen.add(k)
                     ks.append(k + " " + " ".join(strip_double(f)))
             canon.append(name + " | " + " | ".join(ks))
-        return status + " || " + " || ".join(sorted(canon)) + " || " + " | ".join(" ".join(strip_double(p)) for p in probes)
+        return status + " || " + " || ".join(sorted(canon)) + " || " + " | ".join(getter_view(p) for p in probes)
     if o == "parse":
         # arbitrary bytes: the property only promises a consistent object (first token) and no memory error
         return line.split()[0] if line.split() else ""
+    if o == "gget":
+        return getter_view(line.split())
+    if o == "get":
+        # any file: a key that is reported absent yields the defaults
+        t = line.split()
+        return getter_view(t) if "e=0" in t else "found"
+    if o == "life":
+        # unparsed / NULL / missing-file objects answer with the defaults; a second parse changes nothing
+        segs = life_segments(line)
+        out = []
+        first_p = None
+        for sg in segs:
+            if sg[0] == "P":
+                first_p = sg[1:]
+                out.append(" ".join(sg[:4]))
+            elif sg[0] == "Q":
+                out.append("Q " + ("unchanged" if sg[1:] == first_p else "changed: " + " ".join(sg[1:])))
+            else:
+                out.append(" ".join(sg))
+        return " | ".join(out)
+    if o in ("chomp", "strdup", "strtok", "strtokb"):
+        return line
+    if o == "strtod":
+        return "d=*" if double_claim(strtod_text(op)) is not None else line
     return ""
+
+
+# ---- the double getter / p_strtod against an independent reference (Python's correctly rounded float())
+NUMERAL = re.compile(rb"^[+-]?(\d+\.?\d*|\.\d+)([eE][+-]?\d+)?$")
+C_SPACE = b" \t\n\x0b\x0c\r"
+
+
+def double_claim(text):
+    """the value the documentation promises for this text ("any commonly used notation", decimal point '.'),
+    or None when it promises nothing we can check: not a plain decimal numeral, more digits than a double can
+    take in without visible accumulation of rounding, or a magnitude near the ends of the double range"""
+    if text is None:
+        return None
+    m = NUMERAL.match(text)
+    if not m or sum(c in b"0123456789" for c in m.group(1)) > 40:
+        return None
+    if m.group(2) and abs(int(m.group(2)[1:])) > 280:
+        return None
+    ref = float(text)
+    if ref != 0.0 and not (1e-280 < abs(ref) < 1e280):
+        return None
+    return ref
+
+
+def double_ok(text, bits_hex):
+    ref = double_claim(text)
+    if ref is None:
+        return True
+    try:
+        got = struct.unpack("<d", struct.pack("<Q", int(bits_hex, 16)))[0]
+    except (ValueError, struct.error):
+        return False
+    if ref == 0.0:
+        return got == 0.0
+    return abs(got - ref) <= 1e-12 * abs(ref)
+
+
+def strtod_text(op):
+    t = op.split()
+    if len(t) != 2 or t[1] == "NULL":
+        return None
+    try:
+        b = b"" if t[1] == "-" else bytes.fromhex(t[1])
+    except ValueError:
+        return None
+    return b.split(b"\0")[0].strip(C_SPACE)
+
+
+def field(tokens, name):
+    for t in tokens:
+        if t.startswith(name + "="):
+            return t[len(name) + 1:]
+    return None
+
+
+def group_double_ok(tokens):
+    if "e=1" not in tokens:
+        return True
+    sv, dv = field(tokens, "s"), field(tokens, "d")
+    if sv is None or dv is None or sv == "NULL":
+        return False
+    try:
+        text = b"" if sv == "-" else bytes.fromhex(sv)
+    except ValueError:
+        return False
+    return double_ok(text, dv)
+
+
+def spec_match(op, c, sp):
+    if spec_view(op, c) != spec_view(op, sp):
+        return False
+    o = op.split()[0] if op else ""
+    if o == "gparse":
+        status, secs, probes = parse_dump(c)
+        return all(group_double_ok(f + ["e=1"] if "e=1" not in f else f) for _, keys in secs for _, f in keys)
+    if o == "gget":
+        return group_double_ok(c.split())
+    if o == "strtod":
+        return double_ok(strtod_text(op), field(c.split(), "d") or "")
+    return True
+
+
+# ---------------------------------------------------------------------------------------------
+# pstring.c entry points
+
+WS_ALPHABET = b" \t\x0ba"
+TOK_ALPHABET = b"ab, "
+
+
+def pstring_cases(rng, chk, thorough):
+    cases = []
+    # p_strchomp: every string of up to 5 (6) symbols over SP HT VT 'a' — complete for that scope
+    depth = 6 if thorough else 5
+    ops = ["chomp NULL", "chomp -"]
+    for n in range(1, depth + 1):
+        for t in itertools.product(WS_ALPHABET, repeat=n):
+            ops.append("chomp " + bytes(t).hex())
+    for b in range(1, 256):
+        ops += ["chomp %02x61%02x" % (b, b), "chomp %02x" % b, "chomp %02x%02x" % (b, b)]
+    ops += ["chomp " + (b" " * n + b"x" * m + b"\t" * k).hex() for n, m, k in [(0, 2000, 0), (1500, 1, 1500), (3000, 0, 0), (1, 1, 1)]]
+    ops += ["chomp 6100206220", "chomp 200061"]
+    chk.cov.setdefault("pstring", {})["chomp_exhaustive"] = {"alphabet": "SP HT VT a", "max_length": depth}
+    cases += [ops[i:i + 200] for i in range(0, len(ops), 200)]
+    # p_strtok: every string of up to 5 (6) symbols over a b , SP with the delimiter sets "," and ", "
+    ops = []
+    for n in range(0, depth + 1):
+        for t in itertools.product(TOK_ALPHABET, repeat=n):
+            h = hx(bytes(t))
+            ops.append("strtok %s 2c" % h)
+            ops.append("strtok %s 2c20" % h)
+    ops += ["strtok 612c623b63 2c 3b", "strtok 612c623b63 NULL 2c", "strtok 612c62 NULL", "strtok 616263 -", "strtok - -", "strtok 61002c62 2c", "strtok 612c62 2c00",
+            "strtok 61ff62fe63 ff fe", "strtok 612c622c63 2c NULL 2c", "strtokb 6162 20", "strtokb NULL 20", "strtokb 6162 NULL", "strtokb NULL NULL",
+            "strtok 54686973206973206120746573742009737472696e67 2009", "strtok " + (b"a," * 1500).hex() + " 2c"]
+    for _ in range(300 if thorough else 60):
+        sb = bytes(rng.choice(b"abc,; \t\xff") for _ in range(rng.randrange(0, 30)))
+        ds = [bytes(rng.choice(b",; \t\xffa") for _ in range(rng.randrange(0, 3))) for _ in range(rng.randrange(1, 4))]
+        ops.append("strtok %s %s" % (hx(sb), " ".join(hx(d) for d in ds)))
+    chk.cov["pstring"]["strtok_exhaustive"] = {"alphabet": "a b , SP", "max_length": depth, "delimiter_sets": [",", ", "]}
+    cases += [ops[i:i + 200] for i in range(0, len(ops), 200)]
+    # p_strdup
+    ops = ["strdup NULL", "strdup -", "strdup 61", "strdup 610062", "strdup 00", "strdup " + (b"x" * 5000).hex(), "strdup " + bytes(range(1, 256)).hex()]
+    # p_strtod: the numerals of the getter pools bare and wrapped in white space, signs, random numerals
+    pool = INTS + DOUBLES + BOOLS + [b"", b" ", b"\t\n", b"1 2", b"1\x00 2"]
+    for v in pool:
+        ops.append("strtod " + hx(v))
+        ops.append("strtod " + hx(rng.choice([b" ", b"\t", b"\n", b" \x0b\x0c\r "]) + v + rng.choice([b"", b" ", b"\r\n", b"\t\t"])))
+    ops.append("strtod NULL")
+    for _ in range(3000 if thorough else 400):
+        ip = str(rng.randrange(0, 10 ** rng.randrange(0, 22))) if rng.random() < 0.9 else ""
+        fp = ("." + "".join(rng.choice("0123456789") for _ in range(rng.randrange(0, 20)))) if rng.random() < 0.7 else ""
+        ep = (rng.choice("eE") + rng.choice(["", "+", "-"]) + rng.choice(["", "0", "00"]) + str(rng.randrange(0, rng.choice([10, 60, 330])))) if rng.random() < 0.5 else ""
+        v = (rng.choice(["", "", "-", "+"]) + ip + fp + ep).encode()
+        if rng.random() < 0.3:
+            v = rng.choice([b" ", b"\t ", b"\n"]) + v + rng.choice([b"", b" ", b"\n"])
+        ops.append("strtod " + hx(v))
+    chk.bump("op:pstring", len(ops))
+    cases += [ops[i:i + 200] for i in range(0, len(ops), 200)]
+    return cases
+
+
+RAW_NAMES = [b"s", b"S", b"t", b"a", b"k", b"K", b"b", b"k1", b"", b"x y", b"\xe9"]
+
+
+def directed_cases():
+    """small files aimed at one clause each (all well-formed documents, so the spec column answers)"""
+    def doc(lines, tail):
+        return [l.op() for l in lines] + ["wfcheck", "gparse"] + tail
+
+    def H(n):
+        return Line("hdr", ["-", "-", hx(n), "-", "-"], b"[" + n + b"]")
+
+    def E(k, v, q="n"):
+        return Line("ent", ["-", hx(k), "-", "-", q, hx(v), "-", "0", "-"], k + b"=" + QUOTES[q] + v + QUOTES[q])
+
+    z = "%016x" % 0
+    out = []
+    # keys / sections that differ only in case or are prefixes of one another; every getter default both ways
+    out.append(doc([H(b"sec"), E(b"key", b"1"), E(b"KEY", b"2"), E(b"ke", b"3"), E(b"key1", b"4"), H(b"SEC"), E(b"key", b"5"), H(b"se"), E(b"k", b"6")],
+                   ["gget %s %s NULL 0 0 %s" % (hx(a), hx(b), z) for a in (b"sec", b"SEC", b"se", b"Sec", b"s", b"sec1") for b in (b"key", b"KEY", b"ke", b"key1", b"Key", b"k", b"key12")] +
+                   ["life %s %s" % (hx(b"sec"), hx(b"key")), "life NULL NULL", "life %s %s" % (hx(b"SEC"), hx(b"KEY"))]))
+    # defaults: each getter with each "unusual" default for a missing key, a missing section, NULL names
+    look = [("73", "6e6f"), ("6e6f", "6b"), ("NULL", "6b"), ("73", "NULL"), ("NULL", "NULL"), ("-", "6b"), ("73", "-")]
+    out.append(doc([H(b"s"), E(b"k", b"7")],
+                   ["gget %s %s %s %d %d %016x" % (a, b, arg(sd), i, bd, dd) for a, b in look for sd, i, bd, dd in
+                    [(None, 0, 0, 0), (b"", -1, 1, 0x8000000000000000), (b"d" * 300, 2147483647, 0, 0x7ff8000000000000), (b"x", -2147483648, 1, 0xfff0000000000000)]]))
+    # the same key in two sections, a key named like a section, a section that only has a key of another one
+    out.append(doc([H(b"a"), E(b"x", b"1"), E(b"a", b"2"), H(b"b"), E(b"y", b"3"), H(b"x"), E(b"b", b"4")],
+                   ["gget %s %s 64 -7 %d %s" % (hx(a), hx(b), bd, z) for a in (b"a", b"b", b"x", b"y") for b in (b"x", b"y", b"a", b"b") for bd in (0, 1)]))
+    # list values at the sizes of the item buffer, many items, white space other than SP/HT
+    for v in (b"{" + b"x" * 1000 + b"}", b"{" + b" ".join([b"i"] * 400) + b"}", b"{a\x0bb\x0cc\rd}", b"{a}", b"{ a }", b"{a b}x}", b"{{}"):
+        out.append(doc([H(b"s"), E(b"l", v)], ["gget 73 6c NULL 0 0 %s" % z]))
+    return out
 
 
 def signature_of(ops, r):
@@ -461,7 +809,7 @@ def run(chk):
     except pv.BuildError as e:
         chk.violation(str(e), "harness for C16 does not build against the current source", no_input=True, suffix="txt")
         return finish(chk)
-    fam = diffrun.Family("ini", exe, spec_view=spec_view, timeout=300)
+    fam = diffrun.Family("ini", exe, spec_view=spec_view, timeout=300, spec_match=spec_match)
     thorough = chk.tier == "thorough"
     rng = chk.rng
     cases = []
@@ -469,7 +817,9 @@ def run(chk):
     cases.append(f3_probe())
     # (i) documents of the grammar: small ones first so that a failure is reported on a small file
     ndoc_small, ndoc = (3000, 40000) if thorough else (300, 1700)
-    docs = [gen_doc(rng, chk, 1) for _ in range(ndoc_small)] + [gen_doc(rng, chk, rng.choice([2, 3, 4, 6])) for _ in range(ndoc)]
+    docs = [gen_doc(rng, chk, 1, lookups=rng.choice([0, 1, 2])) for _ in range(ndoc_small)] + \
+           [gen_doc(rng, chk, rng.choice([2, 3, 4, 6]), lookups=rng.choice([0, 2, 4])) for _ in range(ndoc)]
+    cases += directed_cases()
     cases += docs
     # (ii) malformed stream
     nraw = 60000 if thorough else 2200
@@ -477,14 +827,27 @@ def run(chk):
     raws = []
     for _ in range(nraw):
         data = gen_raw(rng, chk, pool)
-        raws.append(raw_case(data))
+        c = raw_case(data)
+        if rng.random() < 0.25:
+            # lookups with names that may or may not be there (model column; absent keys must yield the defaults)
+            names = [(n, [k for k in RAW_NAMES if rng.random() < 0.5] or [b"k"]) for n in RAW_NAMES if rng.random() < 0.4]
+            c += gen_lookups(rng, chk, names, "get", rng.choice([1, 2, 3]))
+            if rng.random() < 0.2:
+                c.append("life %s %s" % (arg(rng.choice(RAW_NAMES + [None])), arg(rng.choice(RAW_NAMES + [None]))))
+                chk.bump("op:life")
+        raws.append(c)
     cases += raws
+    # (iv) the pstring.c entry points the parser and the getters rely on
+    ps = pstring_cases(rng, chk, thorough)
+    cases += ps
     # (iii) exhaustive small scope: every line of up to `depth` symbols inside a section
     depth = 5 if thorough else 4
     ex = [raw_case(b"[s]\n" + bytes(t) + b"\n") for n in range(1, depth + 1) for t in itertools.product(EX_ALPHABET, repeat=n)]
     cases += ex
     chk.cov["exhaustive_small_scope"] = {"alphabet": EX_ALPHABET.decode(), "max_line_length": depth, "files": len(ex)}
-    chk.cov["generated"] = {"grammar_documents": len(docs), "malformed_files": len(raws), "exhaustive_lines": len(ex)}
+    chk.cov["generated"] = {"grammar_documents": len(docs), "malformed_files": len(raws), "exhaustive_lines": len(ex),
+                            "pstring_ops": sum(len(c) for c in ps), "lookups_with_chosen_arguments": sum(1 for c in docs + raws for o in c if o.split()[0] in ("get", "gget")),
+                            "life_cycle_scenarios": sum(1 for c in docs + raws for o in c if o.startswith("life "))}
     found, corr, thm = diffrun.campaign(chk, fam, cases, proof_ok, detail, signature_of, "C16", batch=60)
     diffrun.conclude(chk, found, corr, thm, proof_ok and driver_ok, detail, "C16 INI parser")
     chk.cov["rule"] = ("one case = one file, given as pieces (one op per physical line) followed by parse/gparse; (i) files rendered from random documents "
@@ -493,6 +856,14 @@ def run(chk):
                        "(ii) malformed files: mutated valid files, small-alphabet noise, random bytes, NULs, physical lines of 1021..1030 and 2047..5000 bytes, "
                        "BOM fragments, lone brackets/quotes/'=' — compared with the model dump, first token = consistency oracle of the harness, ASan+UBSan abort = violation; "
                        "(iii) every line of up to %d symbols over the alphabet a = \" ' ; [ ] SP inside a section (complete for that scope); " % depth +
+                       "(iv) after the dump, lookups with chosen arguments (ops gget/get: present key, key of another section, names differing in case / by a prefix / by an extension, "
+                       "NULL and empty names, a NUL inside an argument; string default NULL / empty / long, int default 0 / INT_MIN / INT_MAX / random, boolean default FALSE and TRUE, "
+                       "double default +-0 / NaN / +-inf / denormal / random bits) compared with the model and, for documents, with the documented lookup (IniSpec.docFind); "
+                       "(v) op life: unparsed object, NULL object, parse twice with the file rewritten in between, a path that does not exist parsed twice; "
+                       "(vi) the double of every found value and of p_strtod is also judged against Python's correctly rounded float() (relative 1e-12) when the text is a plain decimal "
+                       "numeral of at most 40 digits with |exponent| <= 280; (vii) pstring.c entry points: p_strchomp on every string of up to 5 (thorough 6) symbols over SP HT VT a, "
+                       "on every single byte, NULL; p_strtok on every string of up to 5 (6) symbols over a b , SP with delimiter sets \",\" and \", \" plus changing / NULL delimiter sets and a NULL "
+                       "context; p_strdup; p_strtod on the numeral pools bare and wrapped in white space and on random numerals; " +
                        "a case is distinct by the hash of its op file, non-trivial when it has more than one op; branch_hits = distribution of generated constructs")
     chk.cov["exhaustive"] = False
     chk.assumptions += [
